@@ -275,6 +275,10 @@ fn get_class_info(graph: &Graph, subtable: ObjectId) -> Vec<Mark2BaseClassInfo> 
     assert_eq!(base_array_off.pos, 10);
     let base_array_data = &graph.objects[&base_array_off.object];
 
+    if mark_class_count == 0 {
+        // no classes, no anchors (and `chunks_exact(0)` panics)
+        return class_to_info;
+    }
     for offsets in base_array_data.offsets.chunks_exact(mark_class_count as _) {
         for (i, off) in offsets.iter().enumerate() {
             class_to_info[i].children.push(off.object)
@@ -669,5 +673,53 @@ mod tests {
                 }
             }
         }
+    }
+    // a subtable without any mark class (e.g. from an empty builder) must not
+    // break splitting of its siblings
+    #[test]
+    fn split_next_to_subtable_without_mark_classes() {
+        let big = MarkBasePosFormat1::new(
+            make_mark_coverage(12),
+            (100..1100).map(GlyphId16::new).collect(),
+            MarkArray::new(
+                (0..12)
+                    .map(|class| MarkRecord::new(class, AnchorTable::format_1(class as _, 1)))
+                    .collect(),
+            ),
+            BaseArray::new(
+                (0..1000)
+                    .map(|base| {
+                        BaseRecord::new(
+                            (0..12)
+                                .map(|class| Some(AnchorTable::format_1(base, class + 100)))
+                                .collect(),
+                        )
+                    })
+                    .collect(),
+            ),
+        );
+        let empty = MarkBasePosFormat1::new(
+            make_mark_coverage(0),
+            make_mark_coverage(0),
+            MarkArray::new(vec![]),
+            BaseArray::new(vec![]),
+        );
+        let lookup = Lookup::new(LookupFlag::empty(), vec![big, empty]);
+        let list = LookupList::new(vec![lookup]);
+        let bytes = crate::dump_table(&list).unwrap();
+        let list =
+            read_fonts::tables::gpos::PositionLookupList::read(bytes.as_slice().into()).unwrap();
+        let lookup = list.lookups().get(0).unwrap();
+        let PositionSubtables::MarkToBase(subtables) = lookup.subtables().unwrap() else {
+            panic!("wrong lookup type");
+        };
+        // the big subtable is split, the empty one is kept (last)
+        assert!(subtables.len() > 2);
+        let last = subtables.get(subtables.len() - 1).unwrap();
+        assert_eq!(last.mark_class_count(), 0);
+    }
+
+    fn make_mark_coverage(n: u16) -> crate::tables::layout::CoverageTable {
+        (0..n).map(|i| GlyphId16::new(3000 + i)).collect()
     }
 }
